@@ -16,5 +16,19 @@ pub fn guarded<T>(f: impl FnOnce() -> T) -> Result<T, String> {
 
 /// Silences the default panic message (panics are reported as data)
 pub fn quiet_panics() {
+    if std::env::var("VERIF_LOUD").is_ok() {
+        return;
+    }
     std::panic::set_hook(Box::new(|_| {}));
+}
+
+/// Panic messages with their location (set VERIF_LOUD to also see them on stderr)
+pub fn panic_location_hook() -> std::sync::Arc<std::sync::Mutex<Option<String>>> {
+    let last = std::sync::Arc::new(std::sync::Mutex::new(None));
+    let l2 = last.clone();
+    std::panic::set_hook(Box::new(move |info| {
+        let loc = info.location().map(|l| format!("{}:{}", l.file(), l.line())).unwrap_or_default();
+        *l2.lock().unwrap() = Some(loc);
+    }));
+    last
 }
